@@ -40,6 +40,11 @@ package posix
 //@ func (*Posix) GetObject
 //@   at-call os.Open {C08} [the-key-does-not-point-into-the-bookkeeping-directory] requires versionId != "" || !strings.HasPrefix(*input.Key, metaTmpDir + "/")
 
+// ---- C16: bucket settings are gone once the bucket is deleted, wherever the metadata store keeps them ----
+//@ func (*Posix) DeleteBucket
+//@   at-return {C16} [the-bucket-attributes-are-removed-with-the-bucket] when ret0 == nil :: ensures called("meta.MetadataStorer.DeleteAttributes") \
+//@        && arg("meta.MetadataStorer.DeleteAttributes", 0) == bucket && arg("meta.MetadataStorer.DeleteAttributes", 1) == ""
+
 // ---- C10: retention overwrite rules ---------------------------------------------------
 // The retention attribute of an object version is (re)written only when none exists yet, or the
 // existing one is not COMPLIANCE and, if GOVERNANCE, the caller's bypass was granted. (The gateway
